@@ -139,11 +139,15 @@ MIRI_TIMEOUT = 40 * 60
 MIRI_FLAGS = "-Zmiri-preemption-rate=0.05 -Zmiri-disable-stacked-borrows -Zmiri-disable-validation"
 
 
-def run_miri(seeds, threads, ops, par):
+def run_miri(seeds, threads, ops, par, target=None):
     """One Miri process per seed (parallel processes share the target directory)."""
     env0 = dict(os.environ, CARGO_NET_OFFLINE="true")
     # build once (also proves that the scenario compiles against /repo) so that parallel runs do not race on the build
-    r = subprocess.run(["cargo", "+nightly", "miri", "setup", "--offline"], cwd=MIRI, env=env0, capture_output=True, text=True)
+    tgt = ["--target", target] if target else []
+    r = subprocess.run(["cargo", "+nightly", "miri", "setup"] + tgt, cwd=MIRI, env=env0, capture_output=True, text=True)
+    if target and r.returncode != 0:
+        print("note: no Miri sysroot for %s can be built offline here; that configuration is skipped" % target)
+        return []
     out = []
     pending = list(seeds)
     running = []
@@ -156,7 +160,7 @@ def run_miri(seeds, threads, ops, par):
             extra = " -Zmiri-disable-weak-memory-emulation" if s % 2 == 1 else ""
             env = dict(env0, MIRIFLAGS="-Zmiri-seed=%d %s%s" % (s, MIRI_FLAGS, extra))
             t0 = time.time()
-            p = subprocess.Popen(["cargo", "+nightly", "miri", "run", "--offline", "--", str(s * 7919 + 1), str(threads), str(ops)],
+            p = subprocess.Popen(["cargo", "+nightly", "miri", "run", "--offline"] + tgt + ["--", str(s * 7919 + 1), str(threads), str(ops)],
                                  cwd=MIRI, env=env, stdout=subprocess.PIPE, stderr=subprocess.PIPE, text=True)
             running.append((s, p, t0))
             if first:
@@ -170,12 +174,12 @@ def run_miri(seeds, threads, ops, par):
                 if time.time() - t0 > MIRI_TIMEOUT:
                     p.kill()
                     p.communicate()
-                    out.append(dict(seed=s, rc=124, stdout="", stderr="INVARIANT no_termination: the scenario did not finish under Miri within %d s" % MIRI_TIMEOUT, wall_s=time.time() - t0))
+                    out.append(dict(seed=s, rc=124, stdout="", stderr="INVARIANT no_termination: the scenario did not finish under Miri within %d s" % MIRI_TIMEOUT, wall_s=time.time() - t0, target=target or "host"))
                     continue
                 still.append((s, p, t0))
                 continue
             so, se = p.communicate()
-            out.append(dict(seed=s, rc=rc, stdout=so, stderr=se[-4000:], wall_s=time.time() - t0))
+            out.append(dict(seed=s, rc=rc, stdout=so, stderr=se[-4000:], wall_s=time.time() - t0, target=target or "host"))
         running = still
         if running:
             time.sleep(0.5)
@@ -202,6 +206,7 @@ def main():
     seed = int(os.environ.get("VERIF_SEED", DEFAULT_SEED))
     replay = None
     miri_seeds_override = None
+    i686_override = False
     i = 0
     while i < len(args):
         if args[i] == "--tier":
@@ -212,6 +217,8 @@ def main():
             replay = args[i + 1]; i += 2
         elif args[i] == "--miri-seeds":
             miri_seeds_override = int(args[i + 1]); i += 2
+        elif args[i] == "--miri-i686":
+            i686_override = True; i += 1
         else:
             harness_error("unknown argument " + args[i])
     os.makedirs(os.path.join(VERIF, "logs"), exist_ok=True)
@@ -222,7 +229,7 @@ def main():
     if replay:
         rp = json.load(open(replay))
         if rp.get("engine") == "lazysim-miri":
-            rs = run_miri([rp["miri_seed"]], rp["threads"], rp["ops"], 1)
+            rs = run_miri([rp["miri_seed"]], rp["threads"], rp["ops"], 1, target=None if rp.get("target", "host") == "host" else rp["target"])
             if rs and rs[0]["rc"] != 0 and miri_failure_class(rs[0]) == rp["invariant"]:
                 print("reproduced: " + rp["invariant"])
                 print("VIOLATION property=C09 replay=%s" % replay)
@@ -321,8 +328,12 @@ def main():
         exit_code = 1
 
     miri_runs = []
-    if miri_n > 0 and exit_code == 0:
+    if (miri_n > 0 or i686_override) and exit_code == 0:
         miri_runs = run_miri(list(range(1, miri_n + 1)), 3, 1, par)
+        if tier == "thorough" or i686_override:
+            # one more configuration: a target whose usize is 32 bits wide (table construction and indexing
+            # arithmetic must not depend on the width of usize); interpreted, so no cross toolchain is needed
+            miri_runs += run_miri([1001, 1002], 2, 1, par, target="i686-unknown-linux-gnu")
         for r in miri_runs:
             if r["rc"] != 0:
                 cls = miri_failure_class(r)
@@ -330,7 +341,8 @@ def main():
                     harness_error("Miri build failed: " + r["stderr"][-1500:])
                 name = "C09-%d-%s" % (seed, cls)
                 replay_path = os.path.join(VERIF, "replays", name + ".json")
-                json.dump(dict(engine="lazysim-miri", property="C09", invariant=cls, miri_seed=r["seed"], threads=3, ops=1,
+                json.dump(dict(engine="lazysim-miri", property="C09", invariant=cls, miri_seed=r["seed"], threads=3 if r.get("target", "host") == "host" else 2, ops=1,
+                               target=r.get("target", "host"),
                                flags=MIRI_FLAGS, detail=r["stderr"][-3000:]), open(replay_path, "w"), indent=1)
                 print("violation found under Miri seed %d: %s" % (r["seed"], cls))
                 print(r["stderr"][-1500:])
@@ -369,7 +381,7 @@ def main():
             "components": {"real": ["decaf377 (arkworks build, /repo working tree via shadow manifest), arkworks, hashbrown",
                                     "under Miri: everything including once_cell"],
                            "stub": ["once_cell::sync::Lazy -> shuttle::lazy_static::Lazy (shuttle Once + per-execution storage) in the shuttle half"]},
-            "miri": [dict(seed=r["seed"], rc=r["rc"], wall_s=round(r["wall_s"], 1)) for r in miri_runs],
+            "miri": [dict(seed=r["seed"], rc=r["rc"], wall_s=round(r["wall_s"], 1), target=r.get("target", "host")) for r in miri_runs],
             "missing_probes": missing,
             "shuttle_children_without_progress": len(hung),
             "lazy_cells_seen_by_stand_in": cells_seen,
